@@ -400,6 +400,9 @@ class SimulatorBackend(LocalBackend):
         _time_start = self._time_keeper.time()
         time_start = _time_start + self.simulator_config.delay_start
         self._simulator_state.push(StartEvent(trial_id=trial_id), event_time=time_start)
+        # The trial occupies a worker from now on, not only once its start event
+        # is processed (see :meth:`busy_trial_ids`)
+        self._busy_trial_ids.add(trial_id)
         self._debug_message(
             "StartEvent", time=time_start, trial_id=trial_id, pushed=True
         )
